@@ -594,7 +594,7 @@ def collect_hints(
 
 def remove_hints(
     source: Source,
-    sub_hints: Callable = regex.compile(fr"[\s\x1c-\x1f]*{HINT_COMMENT} .*").sub,
+    sub_hints: Callable = regex.compile(fr"[\s\x1c-\x1f]*{HINT_COMMENT}.*").sub,
 ) -> Source:
     """Once they are collected, remove all Paroxython hints from the given source.
 
